@@ -141,12 +141,36 @@ def reach(repo: Repo, prop: str) -> Set[str]:
         f = mod.funcs.get(qual) if mod else None
         if f is not None:
             entries.append(f.fq)
+    sides_apart = _sides_apart(repo)
     seen: Set[str] = set()
     for e in entries:
         if e in g.funcs:
             seen.add(e)
-            seen |= set(g.edges.get(e, ()))
+            for x in g.edges.get(e, ()):
+                # the reference graph resolves `coercer(...)` / `inner_coercer(...)` by slot name, which mixes the three coercer
+                # packages; they never import one another (checked), so an edge from one side to another is an artefact
+                if sides_apart and _side(g.funcs[e]) and _side(g.funcs[x]) and _side(g.funcs[e]) != _side(g.funcs[x]):
+                    continue
+                seen.add(x)
     return {g.funcs[x].short for x in seen}
+
+
+def _side(f):
+    m = re.match(r"tartiflette/coercers/(inputs|outputs|literals)/", f.module.relpath)
+    return m.group(1) if m else None
+
+
+def _sides_apart(repo: Repo) -> bool:
+    for m in repo.modules.values():
+        mm = re.match(r"tartiflette/coercers/(inputs|outputs|literals)/", m.relpath)
+        if not mm:
+            continue
+        for tgt in m.imports.values():
+            t = tgt if isinstance(tgt, str) else str(tgt)
+            o = re.search(r"tartiflette\.coercers\.(inputs|outputs|literals)\b", t)
+            if o and o.group(1) != mm.group(1):
+                return False
+    return True
 
 
 def check(ck, prop: str):
